@@ -1,17 +1,21 @@
 """C11 -- expressions that must be side-effect free are rejected if they can write state (DESIGN.md section 4, C11).
 
  1 translate   src/expression.cpp (get_symbols, collect_possible_writes/reads), include/utap/statement.h + src/statement.cpp
-               (statement classes, ExpressionVisitor), src/typechecker.cpp (visitFunction, check sites)
-               -> lean/UtapModel/Gen/EffectGen.lean                                   (tie T: tables regenerated every run)
+               (statement classes, ExpressionVisitor), src/typechecker.cpp (visitFunction, check sites, checkType: which
+               children of a type are checked) -> lean/UtapModel/Gen/EffectGen.lean   (tie T: tables regenerated every run)
  2 prove       UtapModel.Props.C11: MayWrite -> changesAny for every program / expression (all statement forms, call
-               chains, reference parameters), twin theorem, context table                 (all inputs, no bound)
+               chains, reference parameters), twin theorem, context table; the size of every dimension of an array type is
+               handed to the checks (C11_every_dimension_checked)                         (all inputs, no bound)
  3 correspond  real function bodies and context expressions (dumped by harness/c11.cpp after parse_XML_buffer /
                parse_XTA) through the Lean model (drv_c11): function_t::changes / depends, changes_any_variable,
                isCompileTimeComputable compared one by one                             (tie C)
- 4 search      direct oracle on the implementation: contexts x write forms -> must be rejected, write-free twin ->
-               must be accepted; random programs with an independent may-write computation
+ 4 search      direct oracle on the implementation: contexts (every kind of declaration and every dimension for array
+               sizes) x write forms -> must be rejected, write-free twin -> must be accepted; writers whose parameters /
+               locals carry the name of the global they write; random programs (with such name clashes) with an
+               independent may-write computation
 """
 import os
+import re
 import sys
 
 from vlib import core
@@ -60,19 +64,20 @@ def gen_matrix(ctx):
                 "array-size", "range-bound", "typedef-range-bound", "inst-arg", "quantified-body-guard", "quantified-body-exists",
                 "quantified-body-sum", "quantified-body-function", "assertion", "query-AG", "query-EF", "query-leadsto", "query-quantified"}
     for cn, cx in ctxs.items():
-        light = (cn not in core_ctx) and not full      # the further query forms get a sample of the matrix in the quick tier
+        # contexts marked `sampled` get a sample of the matrix in the quick tier (as the further query forms would with full = False)
+        light = ((cn not in core_ctx) and not full) or (cx.get("sampled") and not ctx.thorough)
         # A. direct writes: every operator on `w`; every target with `=` and one random operator
         for op in all_ops:
             add(cn, direct_write("w", op), "", "reject", "ctx=%s/direct/%s/w" % (cn, op))
         add(cn, twin_expr(cx), "", "accept", "ctx=%s/twin/direct" % cn)
         for t in (targets[1:] if not light else r.sample(targets[1:], 2)):
-            ops = all_ops if full else ["=", r.choice(all_ops[1:])]
+            ops = all_ops if (full and not light) else ["=", r.choice(all_ops[1:])]
             for op in ops:
                 add(cn, direct_write(t, op), "", "reject", "ctx=%s/direct/%s/%s" % (cn, op, t))
             add(cn, twin_expr(cx, "(%s + 1)" % G.TARGETS[t]), "", "accept", "ctx=%s/twin/direct-target/%s" % (cn, t))
         # B. call of a writer: the write sits in every statement form
         for form in (stmt_forms if not light else r.sample(stmt_forms, 5)):
-            wes = G.WRITE_EXPRS if full else [G.WRITE_EXPRS[0], r.choice(G.WRITE_EXPRS[1:10]), r.choice(G.WRITE_EXPRS[10:])]
+            wes = G.WRITE_EXPRS if (full and not light) else [G.WRITE_EXPRS[0], r.choice(G.WRITE_EXPRS[1:10]), r.choice(G.WRITE_EXPRS[10:])]
             for we in wes:
                 add(cn, "wr()", G.writer_function("wr", form, we, False), "reject", "ctx=%s/call/%s/%s" % (cn, form, we))
             tw = "loc + 1" if form == "local-init" else r.choice(G.WRITE_EXPRS[:8])
@@ -95,6 +100,12 @@ def gen_matrix(ctx):
         for shape, pre, e, tpre, te in (rf if not light else r.sample(rf, 3)):
             add(cn, e, pre, "reject", "ctx=%s/ref/%s" % (cn, shape))
             add(cn, te, tpre, "accept", "ctx=%s/twin/ref/%s" % (cn, shape))
+        # F. the writer has a parameter or a local variable with the NAME of the global it writes: the may-write set is a set of
+        #    symbols, and removing the function's own parameters and locals from it must not remove the global of the same name
+        sf = shadow_forms(r, cx)
+        for shape, pre, e, tpre, te in (sf if not light else r.sample(sf, 3)):
+            add(cn, e, pre, "reject", "ctx=%s/shadow/%s" % (cn, shape))
+            add(cn, te, tpre, "accept", "ctx=%s/twin/shadow/%s" % (cn, shape))
     # E. controls: the same writes where side effects are allowed (update label, function body) are accepted
     wrf = G.writer_function("wr", "nested-loops", "w = 1", False)
     for i, asg in enumerate(["w = 1", "w++, x = w", "arr[x] = wr()", "st.a += 1, wr()", "x = (bb ? w : x) = 2"]):
@@ -138,6 +149,47 @@ def ref_forms(r, cx):
     out.append(("ref-then-call-in-loop", "void setr(int &r) { r = 1; }\nint vv(int &q) { int loc = 0; while (loc < 1) { loc++; setr(q); } return 1; }",
                 "vv(w)", "void setr(int r) { r = 1; }\nint vv(int q) { int loc = 0; while (loc < 1) { loc++; setr(q); } return 1; }", "vv(%s)" % rd))
     # local of the caller passed by reference: writes the caller's local only -> pure caller
+    return out
+
+
+def shadow_forms(r, cx):
+    """(shape, declarations, expression, twin declarations, twin expression): functions whose parameter / local variable hides
+    the global they write -- directly before the hiding declaration, or through a callee that sees the global.
+    The twins write the hiding parameter / local only."""
+    out = []
+    one = "C" if cx["ctc"] else "1"
+    form = r.choice([f for f in G.STMT_FORMS if f not in ("local-init", "return")])
+    via = G.STMT_FORMS[form] % {"W": "setw()"}
+    setw = "int setw() { w = 1; return 1; }\n"       # (int: some statement forms use the call as a value)
+    # value / reference / constant reference parameter called `w`, the global `w` written by a callee (in a random statement form)
+    out.append(("value-parameter/callee/%s" % form, setw + "int sh(int w) { int loc = 0; %s return w; }" % via, "sh(%s)" % one,
+                "int sh(int w) { int loc = 0; w = 1; return w; }", "sh(%s)" % one))
+    out.append(("reference-parameter/callee/%s" % form, setw + "int sh(int &w) { int loc = 0; %s return 1; }" % via, "sh(x)",
+                "int sh(const int &w) { int loc = 0; return w + loc; }", "sh(%s)" % ("C" if cx["ctc"] else "x")))
+    out.append(("const-parameter/callee", setw + "int sh(const int w) { setw(); return w; }", "sh(%s)" % one,
+                "int sh(const int w) { return w; }", "sh(%s)" % one))
+    # chain: the callee that writes is two calls away
+    out.append(("value-parameter/callee-chain", setw + "void sw2() { setw(); }\nint sh(int w) { sw2(); return w; }", "sh(%s)" % one,
+                "void sw2() { }\nint sh(int w) { sw2(); w++; return w; }", "sh(%s)" % one))
+    # a local of the outermost block, of an inner block, of a loop body; the global written before the local exists or by a callee
+    out.append(("local/callee", setw + "int sh() { int w = 0; w++; setw(); return w; }", "sh()",
+                "int sh() { int w = 0; w++; return w; }", "sh()"))
+    out.append(("inner-block-local/direct-before", "int sh() { w = 1; { int w = 0; w++; } return 1; }", "sh()",
+                "int sh() { { int w = 0; w++; } return 1; }", "sh()"))
+    out.append(("inner-block-local/direct-after", "int sh() { { int w = 0; w++; } w = 1; return 1; }", "sh()",
+                "int sh() { { int w = 0; w++; } return 1; }", "sh()"))
+    out.append(("loop-body-local/callee", setw + "int sh() { int loc = 0; while (loc < 1) { int w = 0; loc++; w++; setw(); } return 1; }", "sh()",
+                "int sh() { int loc = 0; while (loc < 1) { int w = 0; loc++; w++; } return 1; }", "sh()"))
+    out.append(("iteration-binder/callee", setw + "int sh() { int loc = 0; for (w : int[0,1]) { loc += w; setw(); } return loc; }", "sh()",
+                "int sh() { int loc = 0; for (w : int[0,1]) { loc += w; } return loc; }", "sh()"))
+    # the hidden global is an array / a struct, the hiding object of another type
+    out.append(("value-parameter/array-global", "void seta() { arr[1] = 1; }\nint sh(int arr) { seta(); return arr; }", "sh(%s)" % one,
+                "int sh(int arr) { arr = 1; return arr; }", "sh(%s)" % one))
+    out.append(("local/struct-global", "void sets() { st.a = 1; }\nint sh() { bool st = true; sets(); return st ? 1 : 0; }", "sh()",
+                "int sh() { bool st = true; st = false; return st ? 1 : 0; }", "sh()"))
+    # two functions, each hiding the global: the outer one calls the inner one, the write sits in between
+    out.append(("two-levels", setw + "int s1(int w) { setw(); return w; }\nint sh(int w) { return s1(w); }", "sh(%s)" % one,
+                "int s1(int w) { w++; return w; }\nint sh(int w) { return s1(w); }", "sh(%s)" % one))
     return out
 
 
@@ -240,11 +292,15 @@ C11_WHAT = {
 class RandProg:
     """Functions f0..fn over globals g0..g3 (ints), ga (int[3]), gs (struct); bodies of random statement structure.
     Python-side ground truth: `writes[f]` = globals f may write (transitively, through reference parameters), and
-    `wparam[f]` = indices of reference parameters f may write."""
+    `wparam[f]` = indices of reference parameters f may write.
+    `shadow` = probability that a function gives one of its parameters / locals the NAME of a global that only its callees
+    touch (the sets are sets of symbols: the function's own `g1` must not stand in for, or remove, the global `g1`);
+    `plain[f]` keeps the text of f before that renaming."""
 
-    def __init__(self, r, nfun, thorough=False):
+    def __init__(self, r, nfun, thorough=False, shadow=0.0):
         self.r = r
-        self.funs = []
+        self.shadow = shadow
+        self.funs, self.plain = [], {}
         self.writes, self.wparam, self.reads = {}, {}, {}
         self.refpass = {}   # f -> passes some lvalue to a non-const reference parameter anywhere (transitively)
         for i in range(nfun):
@@ -281,7 +337,14 @@ class RandProg:
             body += self.stmt(st, 2) + " "
         body += "return %s;" % self.rexpr(st, 1)
         ptxt = ", ".join({"val": "int %s", "ref": "int &%s", "cref": "const int &%s"}[m] % n for n, m in params)
-        self.funs.append((name, "int %s(%s) { %s }" % (name, ptxt, body), params))
+        text = "int %s(%s) { %s }" % (name, ptxt, body)
+        self.plain[name] = text
+        if self.shadow and r.random() < self.shadow:
+            # a global this function does not mention itself (so the renaming cannot capture anything), touched by a callee
+            cand = [g for g in sorted(st["w"] | st["rd"]) if not re.search(r"\b%s\b" % g, text)]
+            if cand:
+                text = re.sub(r"\b%s\b" % r.choice([pn for pn, _ in params] + ["l1"]), r.choice(cand), text)
+        self.funs.append((name, text, params))
         self.writes[name], self.wparam[name], self.reads[name], self.refpass[name] = st["w"], st["wp"], st["rd"], st["refpass"]
 
     def rexpr(self, st, depth, allow_call=True):
@@ -398,7 +461,7 @@ def gen_random_programs(ctx):
     nprog = 800 if not ctx.thorough else 6000
     se = {"guard": G.SE % "Guard", "invariant": G.SE % "Invariant", "sync": G.SE % "Synchronisation", "query": G.SE % "Property"}
     for pi in range(nprog):
-        prog = RandProg(r, r.randint(2, 7))
+        prog = RandProg(r, r.randint(2, 7), shadow=0.3)
         # one context per model: call a random function with value arguments / lvalue arguments
         fi = r.randrange(len(prog.funs))
         name, _, params = prog.funs[fi]
@@ -463,7 +526,8 @@ def run(ctx):
         core.write_if_changed(GEN, text)
         cov["translated"] = {"write_lhs_kinds": len(info["write_lhs"]), "get_symbols_rows": len(info["get_symbols"]),
                              "statement_classes": len(info["classes"]), "check_sites": info["sites"],
-                             "parts_only_C13_reads_that_changed": info["c13_only_errors"]}
+                             "parts_only_C13_reads_that_changed": info["c13_only_errors"],
+                             "checkType_case_rows": info["checkType_rows"], "checkType_call_sites": info["checkType_sites"]}
     except effects.TranslateError as ex:
         tie_error = str(ex)
         ctx.log("translator failed:", ex)
